@@ -51,31 +51,35 @@ Theorem C03_item_roundtrip : forall tag v : text, ~ In 58%Z tag ->
   parse_item ((35%Z :: tag) ++ 58%Z :: v) = Some (35%Z :: tag, v).
 Proof. exact item_roundtrip. Qed.
 
-(* ---- padding of empty measures: rows are keys wide iff the repaired variant is used or the chart has 4 keys ---- *)
-Theorem C03_pad_rows_width : forall (v : variant) (k : Z), (0 <= k)%Z ->
-  (forall r, In r (split_on 10 (pad_measure live_conf v (Some k))) -> Z.of_nat (length r) = k) <-> (v_pad v = true \/ k = 4%Z).
-Proof. exact (fun v k => pad_rows_width live_conf v k C03_metronome_is_4). Qed.
+(* ---- padding of empty measures: the rows are keys wide for every key count (guard "4 keys" gone with d872b70) ---- *)
+Theorem C03_pad_rows_width : forall k : Z, (0 <= k)%Z ->
+  forall r, In r (split_on 10 (pad_measure live_conf current (Some k))) -> Z.of_nat (length r) = k.
+Proof. exact (fun k => pad_rows_width_current live_conf k C03_metronome_is_4). Qed.
 
-(* ---- sm_write_wf / sm_write_denotes are REFUTED for the pinned tree by two defect classes (witnesses are real
-   inputs with the text the implementation wrote), and hold on the same inputs for the repaired variants ---- *)
-Theorem C03_sm_write_wf_refuted_selectable :
-  exists s txt, s_sel s = false /\ renders tol9 (sm_write live_conf pinned s) txt = true /\ wf_sm_textb txt = false.
-Proof. exact sm_write_wf_refuted_selectable. Qed.
-Theorem C03_sm_write_selectable_repaired :
-  renders tol9 (sm_write live_conf (mkVar true false false) w_sel_set) w_sel_txt_repaired = true /\
-  match sm_denote w_sel_txt_repaired with Some d => write_spec (1 # 1000000) true w_sel_set d | None => false end = true.
-Proof. exact sm_write_selectable_repaired. Qed.
-Theorem C03_sm_write_wf_refuted_padding :
-  exists s txt, renders tol9 (sm_write live_conf pinned s) txt = true /\ wf_sm_textb txt = false.
-Proof. exact sm_write_wf_refuted_padding. Qed.
-Theorem C03_sm_write_padding_repaired :
-  renders tol9 (sm_write live_conf (mkVar false true false) w_pad_set) w_pad_txt_repaired = true /\
-  match sm_denote w_pad_txt_repaired with Some d => write_spec (1 # 1000000) true w_pad_set d | None => false end = true.
-Proof. exact sm_write_padding_repaired. Qed.
+(* ---- #SELECTABLE is an item for both values and is read back as written (guard "selectable" gone with 16f3fe3) ---- *)
+Theorem C03_selectable_item : forall b : bool,
+  parse_item (tx (if b then "#SELECTABLE:YES" else "#SELECTABLE:NO")) = Some (tx "#SELECTABLE", tx (if b then "YES" else "NO")).
+Proof. exact selectable_item_current. Qed.
+
+(* ---- the OLD behaviours refute sm_write_wf (witnesses are real inputs with the text the old implementation wrote);
+   the current model writes the same inputs as well-formed texts that denote them ---- *)
+Theorem C03_sm_write_wf_refuted_OLD_selectable :
+  exists s txt, s_sel s = false /\ renders tol9 (sm_write live_conf OLD_selectable_bare_no s) txt = true /\ wf_sm_textb txt = false.
+Proof. exact sm_write_wf_refuted_OLD_selectable. Qed.
+Theorem C03_sm_write_selectable_current :
+  renders tol9 (sm_write live_conf current w_sel_set) w_sel_txt_current = true /\
+  match sm_denote w_sel_txt_current with Some d => write_spec (1 # 1000000) true w_sel_set d | None => false end = true.
+Proof. exact sm_write_selectable_current. Qed.
+Theorem C03_sm_write_wf_refuted_OLD_padding :
+  exists s txt, renders tol9 (sm_write live_conf OLD_pad_0000 s) txt = true /\ wf_sm_textb txt = false.
+Proof. exact sm_write_wf_refuted_OLD_padding. Qed.
+Theorem C03_sm_write_padding_current :
+  renders tol9 (sm_write live_conf current w_pad_set) w_pad_txt_current = true /\
+  match sm_denote w_pad_txt_current with Some d => write_spec (1 # 1000000) true w_pad_set d | None => false end = true.
+Proof. exact sm_write_padding_current. Qed.
 
 (* ---- sm_write_denotes, PARTIAL.  Full statement (not proved for all mapsets):
-       forall s toks txt, set_wf s -> selectable s \/ v_sel v -> (no empty measure \/ 4 keys \/ v_pad v) ->
-         sm_write live_conf v s = Some toks -> renders toks txt ->
+       forall s toks txt, set_wf s -> sm_write live_conf current s = Some toks -> renders toks txt ->
          exists d, sm_denote txt = Some d /\ write_spec tol (exact_regime s) s d = true.
    Proved: every arithmetic step of it (LCM/cap, integral rows, truncation bound, place, item round trip, padding width);
    missing: the induction over measures/rows tying fill_lines to denote_rows, and the step from the C10 theorems about
@@ -93,8 +97,8 @@ Proof.
 Qed.
 
 (* non-vacuity: a 6-key mapset with two tempo points (the second mid-measure), every kind of object, a hold across
-   the tempo change: the pinned writer's text renders the model's tokens and denotes the mapset *)
+   the tempo change: the writer's text renders the model's tokens and denotes the mapset *)
 Example C03_example_in_domain :
-  renders tol9 (sm_write live_conf pinned w_ok_set) w_ok_txt = true /\
+  renders tol9 (sm_write live_conf current w_ok_set) w_ok_txt = true /\
   match sm_denote w_ok_txt with Some d => write_spec (1 # 1000000) false w_ok_set d | None => false end = true.
 Proof. exact sm_write_example. Qed.
